@@ -1,4 +1,4 @@
-import FluteModel.Lemmas.SchedGone
+import FluteModel.Lemmas.SchedCarousel
 /-
   C12 - Transfer lifecycle.  All theorems quantify over every configuration, every FDT table and EVERY
   operation history (add / publish / remove / trigger / read / set_complete with arbitrary times).
@@ -207,6 +207,25 @@ theorem carousel_until_removed (cfg : Cfg) (tbl : List Nat) (ops : List Op) (toi
     rcases (r.inFiles hin).2 with h | h
     · exact Or.inl h
     · right; unfold isTransferring; rw [hf]; exact h
+
+/-- A carousel object IS retransmitted (`carousel_until_removed`, liveness; equally: any waiting object gets its next
+    transfer): for a sender whose objects are not paced and `0 < fdt_duration`, let object `toi` be WAITING in any
+    reachable state, published (FullFDT), past its start time at `N`, its queue configured, and allowed to transfer
+    at `N` by `should_transfer_now` (`max_transfer_count > transfer_count`, or the carousel gap test passes:
+    `now - previous end > delay` resp. `now - previous start > interval`).  Then in ANY `mu N + 1` consecutive calls
+    `read(N)` one of the calls appends a StartTransfer of `toi` to the trace (`CleanSeq`: "no call of the sequence
+    appends a StartTransfer / removal / trigger of `toi`" is false - and the sequence consists of reads only, which
+    neither remove nor trigger).  Applied again and again - after each transfer the object waits again
+    (`carousel_until_removed`), and the gap test passes once the caller polls an instant past the gap - it gives the
+    k-th transfer start for every k as long as the object is not removed.  (The induction over k and the instants
+    is not stated; PACED senders: step form `carousel_liveness_step_partial`.) -/
+theorem waiting_object_starts (cfg : Cfg) (tbl : List Nat) (hdur : 0 < cfg.fdtDuration)
+    (hsorted : (cfg.queues.map (fun x => x.1)).Pairwise (fun a b => a < b)) (ops : List Op) (toi N : Nat)
+    (f : FileDesc) (he : WaitsEligible (run (init cfg tbl) ops) toi N f)
+    (hprio : f.prio ∈ cfg.queues.map (fun x => x.1))
+    (tks : List (List (Nat × Nat))) (hlen : mu N tbl (run (init cfg tbl) ops) + 1 ≤ tks.length) :
+    ¬ CleanSeq toi N (run (init cfg tbl) ops) tks :=
+  starts_within cfg tbl hdur hsorted ops toi N f he hprio tks hlen
 
 /-- Liveness step for `carousel_until_removed` ("is retransmitted"): if a carousel object is still in the sender and
     `read(now)` returns `None`, the object waits for an explicit reason: not published (FullFDT), start time in the
@@ -485,5 +504,18 @@ example : ∃ f, Unpaced (run (init cfg1 [1]) [.add obj3, .publish 5]) 1 5 f ∧
   exact ⟨f, Unpaced.mk h1 h2 (fun _ => h3) (fun st h => by rw [h4] at h; cases h) (fun k g h => hall g (getF_mem h)),
     by rw [h5]; decide⟩
 example : isAdded (reads (run (init cfg1 [1]) [.add obj3, .publish 5]) 5 [] 9).1 1 = false := by decide
+
+/-- non-vacuity of `waiting_object_starts`: `obj3` after add + publish waits and may transfer at instant 5; the second
+    call of a polling sequence appends its StartTransfer -/
+example : ∃ f, WaitsEligible (run (init cfg1 [1]) [.add obj3, .publish 5]) 1 5 f ∧ f.prio ∈ cfg1.queues.map (fun x => x.1) := by
+  have hobj : ∃ f, getF (run (init cfg1 [1]) [.add obj3, .publish 5]).objs 1 = some f ∧ f.maxCount > f.info.count ∧
+      f.published = true ∧ f.info.startTime = none ∧ f.prio = 0 := by
+    refine ⟨_, rfl, ?_, ?_, ?_, ?_⟩ <;> decide
+  obtain ⟨f, h1, h2, h3, h4, h5⟩ := hobj
+  have hall : ∀ g ∈ (run (init cfg1 [1]) [.add obj3, .publish 5]).objs, wantsTick g = false := by decide
+  have hq : 1 ∈ (run (init cfg1 [1]) [.add obj3, .publish 5]).queue := by decide
+  exact ⟨f, WaitsEligible.mk (And.intro hq (Exists.intro f (And.intro h1 (PView.refl f)))) (Or.inl h2) (fun _ => h3)
+    (fun st h => by rw [h4] at h; cases h) (fun k g h => hall g (getF_mem h)), by rw [h5]; decide⟩
+example : (read (read (run (init cfg1 [1]) [.add obj3, .publish 5]) 5 []).1 5 []).1.log.any (badEv2 1) = true := by decide
 
 end Flute.Props.C12
